@@ -41,7 +41,7 @@ def run(prop, tier, rule, nontrivial_key, assumptions):
     if prop in ("C01", "C02"):
         from . import c08
 
-        ish = [dict(kind="pairs", first=a, prefix=pfx, tier=tier) for a in ("AAA", "AAC", "ACG", "AACA") for pfx in (True, False)]
+        ish = [dict(kind="pairs", first=a, prefix=pfx, tier=tier) for a in (("AAA", "AACA") if tier == "quick" else ("AAA", "AAC", "ACG", "AACA", "ACGA")) for pfx in (True, False)]
         iout = common.pmap("vf.checks.c08", "run_shard", ish)
         want = ("coords", "errors") if prop == "C01" else ("unique-missed",)
         ievals = 0
